@@ -11,6 +11,12 @@ package hash
 
 //@ ghost func EmptyHash() Hash { return ufr[Hash]("emptyHash") }
 
+//@ func Hash.Empty
+//@   trusted
+//@   modifies *h
+//@   ensures *h == EmptyHash()
+//@   note sets the receiver to the constant hash of the empty byte string
+
 //@ func Hash.IsEmpty
 //@   trusted
 //@   pure
